@@ -499,6 +499,27 @@ func rulePoolPairing(c *Ctx) {
 				c.badPath(key, g.Pos(), path, "a return is reachable after luapool.Get without the state being put back or handed to an owner: the bounded pool (%d states) drains and scripting stops for every connection", 1000)
 				continue
 			}
+			// a deferred Put must run last: every other deferred call that still uses the state has to be
+			// registered after it (deferred calls run in reverse order)
+			putDefers := fg.Find(func(x ast.Node) bool {
+				d, ok := x.(*ast.DeferStmt)
+				return ok && isPoolPut(callee(info, d.Call)) && len(d.Call.Args) == 1 && mentionsState(d.Call.Args[0])
+			})
+			lateUse := false
+			for _, pd := range putDefers {
+				for _, od := range fg.Find(func(x ast.Node) bool {
+					d, ok := x.(*ast.DeferStmt)
+					return ok && !isPoolPut(callee(info, d.Call)) && mentionsState(d)
+				}) {
+					if !fg.Dominates(pd, od) {
+						lateUse = true
+						c.bad(key+"/put-runs-last", od.Node.Pos(), "the deferred %s uses the Lua state but is registered before the deferred Put, so it runs after the state is back in the pool, where another connection may already be using it", exprStr(od.Node.(*ast.DeferStmt).Call.Fun))
+					}
+				}
+			}
+			if len(putDefers) > 0 && !lateUse {
+				c.ok(key+"/put-runs-last", putDefers[0].Node.Pos(), true, "every other deferred use of the state is registered after the deferred Put")
+			}
 			if agg == nil {
 				c.ok(key, g.Pos(), true, "the state is put back on every path")
 				continue
